@@ -24,7 +24,16 @@ pub fn jobs(ctx: &Ctx) -> Vec<RJob> {
             for margin in 0..=16usize {
                 k += 1;
                 let job = Job { fam: FAMS[0], class: 2, mode: Some(2), level: Some((k % 4) as usize), version: Some(v), mask: Some((k % 8) as usize), len: 1 + (k as usize % 5), gen: 0, seed: mix(ctx.seed, k), ..Default::default() };
-                let spec = Spec { margin: Some(margin), image: Some("logo.png".into()), image_bg_shape: Some(shape), ..Default::default() };
+                let mut spec = Spec { margin: Some(margin), image: Some("logo.png".into()), image_bg_shape: Some(shape), ..Default::default() };
+                // the frame's colour is an option too (opaque values only: a fully transparent frame has no observable geometry)
+                spec.image_bg_color = match k % 7 {
+                    0 => Some(crate::render::Colour::Rgb([0, 0, 0])),
+                    1 => Some(crate::render::Colour::Text("#ff0000".into())),
+                    2 => Some(crate::render::Colour::Rgba([255, 255, 0, 255])),
+                    3 => Some(crate::render::Colour::Text("#008000".into())),
+                    4 => Some(crate::render::Colour::Rgb([(k * 37 % 256) as u8, (k * 91 % 256) as u8, (k * 13 % 256) as u8])),
+                    _ => None,
+                };
                 out.push(RJob { job, spec });
             }
         }
@@ -47,6 +56,14 @@ pub fn jobs(ctx: &Ctx) -> Vec<RJob> {
             }
         };
         let mut spec = Spec { margin: Some(margin), image: Some("logo.png".into()), image_bg_shape: Some(rng.below(3)), ..Default::default() };
+        if rng.chance(1, 2) {
+            spec.image_bg_color = Some(match rng.below(4) {
+                0 => crate::render::Colour::Rgb([0, 0, 0]),
+                1 => crate::render::Colour::Text("#ff0000".into()),
+                2 => crate::render::Colour::Rgb([rng.byte(), rng.byte(), 0]),
+                _ => crate::render::Colour::Rgb([rng.byte(), rng.byte(), rng.byte()]),
+            });
+        }
         let which = 1 + rng.below(7); // at least one override
         if which & 1 != 0 {
             spec.image_size = Some(if rng.chance(1, 10) { [0.5, 1.0, 2.0, size][rng.below(4)] } else { real(&mut rng, 1.0, size * 0.5) });
